@@ -251,3 +251,62 @@ def _expanded_polarity(fm: FuncModel, test: ast.expr, at: N, hk: tuple) -> bool 
 def require(cond: bool, msg: str) -> None:
     if not cond:
         raise AnalysisError(msg)
+
+
+# --------------------------------------------------------------------------- path enumeration
+def enumerate_paths(fm: FuncModel, start: N, target: N, stop: set[int] | None = None, budget: int = 3000):
+    """Simple paths start -> target (start not revisited, no node twice).  Yields lists of node ids
+    (excluding start, including target).  Raises AnalysisError when the budget is exhausted."""
+    g = fm.cfg.g
+    stop = stop or set()
+    # prune: only nodes from which target is reachable
+    can = fm.cfg.can_reach_avoiding(target, [start]) | {target.id}
+    count = [0]
+
+    def rec(i, path, seen):
+        if i == target.id:
+            count[0] += 1
+            if count[0] > budget:
+                raise AnalysisError("path enumeration budget exhausted")
+            yield list(path)
+            return
+        if i in stop:
+            return
+        for s in g.successors(i):
+            if s in seen or s not in can or s == start.id:
+                continue
+            path.append(s)
+            seen.add(s)
+            yield from rec(s, path, seen)
+            seen.discard(s)
+            path.pop()
+
+    for s in g.successors(start.id):
+        if s in can:
+            yield from rec(s, [s], {start.id, s})
+
+
+def paths_imply(fm: FuncModel, start: N, target: N, goal, translator, names_killing=None) -> str | None:
+    """On every simple path start -> target the branch conditions taken (those not invalidated by a later
+    write on the path to a location they read) imply `goal`.  Returns None if so, else a description of a
+    path on which the goal does not follow."""
+    from .. import logic
+    for path in enumerate_paths(fm, start, target):
+        facts = []  # (formula, reads)
+        for i in path[:-1] if path and path[-1] == target.id else path:
+            n = fm.cfg.nodes[i]
+            w = fm.node_writes(n) if n.kind in ("stmt", "test", "for") else set()
+            if w:
+                facts = [(f, r) for f, r in facts if not (r & {x.partition("@")[0] for x in w} or r & w)]
+            if n.kind == "branch" and n.test is not None:
+                f = translator.f(n.test)
+                reads = {x.id for x in ast.walk(n.test) if isinstance(x, ast.Name)}
+                facts.append((f if n.pol else logic.Not(f), reads))
+        hyp = logic.And(*[f for f, _ in facts])
+        try:
+            if not logic.implies(hyp, goal):
+                lines = [fm.cfg.nodes[i].lineno for i in path if fm.cfg.nodes[i].kind == "branch"]
+                return f"path through lines {lines[:8]} (conditions: {logic.show(hyp)[:160]})"
+        except logic.TooBig:
+            return "path condition too large to decide"
+    return None
